@@ -289,10 +289,102 @@ def filesCheck : Nat → List (Nat × List Char) × List (List Char × Nat) → 
       | none => .reject
       | some st' => filesCheck (i + 1) st' fs
 
-/-- `loadQuotaResources`: strategy creation for every quota and its attached internal limits -/
+/-! #### the quota tree of one quota (`resourceutils.QuotaTrie`) — ids may repeat -/
+
+/-- a node of the quota tree: its id and the index of its parent node (the tree is the list of its nodes in
+    insertion order; node 0 is the quota itself) -/
+structure QNode where
+  id : String
+  parent : Option Nat
+deriving DecidableEq, Repr, Inhabited
+
+def firstIdx {α : Type} (p : α → Bool) : List α → Option Nat
+  | [] => none
+  | a :: l => if p a then some 0 else (firstIdx p l).map (· + 1)
+
+/-- `QuotaNode.GetNode(id)`: the node ITSELF first, then its children, recursively — first match.  When all
+    matches lie on one branch this is the shallowest = the earliest inserted one, whatever order Go's map of
+    children is iterated in; for matches on sibling branches Go's answer depends on that order and "earliest
+    inserted" is one of the possible answers. -/
+def qresolve (t : List QNode) (id : String) : Option Nat := firstIdx (·.id == id) t
+
+def hasChild (t : List QNode) (p : Nat) (id : String) : Bool :=
+  t.any fun n => n.parent == some p && n.id == id
+
+/-- `quotaResource.init`: every attached internal limit becomes a child of the node its `parent_id` resolves to;
+    `none` = `AddNode` refused it ("internal limit with ID … already exists": same id twice under one node) -/
+def treeAdd : List QNode → List QEntry → Option (List QNode)
+  | t, [] => some t
+  | t, il :: rest =>
+    match qresolve t (il.parent.getD "") with
+    | none => none
+    | some p => if hasChild t p il.id then none else treeAdd (t ++ [⟨il.id, some p⟩]) rest
+
+def treeOf (q : QEntry) (ils : List QEntry) : Option (List QNode) := treeAdd [⟨q.id, none⟩] ils
+
+/-- one step of the loop of `Stream.addParentsQuotaReferences`: from the node `i` the id resolved to, to the
+    node the id of its PARENT resolves to (`GetParentID` = the id of the actual parent node) -/
+def walkStep (t : List QNode) (i : Nat) : Option Nat :=
+  match (t[i]?).bind (·.parent) with
+  | none => none
+  | some p =>
+    match t[p]? with
+    | none => none
+    | some pn => qresolve t pn.id
+
+/-- the loop `for parentQuotaID != ""`; `true` = it ended, `false` = fuel exhausted (Go: it spins for ever) -/
+def parentWalk (t : List QNode) : Nat → Nat → Bool
+  | 0, _ => false
+  | fuel + 1, i =>
+    match walkStep t i with
+    | none => true
+    | some j => parentWalk t fuel j
+
+/-- `addParentsQuotaReferences(quota_id)` on the tree that contains the id -/
+def refWalkOk (t : List QNode) (id : String) : Bool :=
+  match qresolve t id with
+  | none => true
+  | some i => parentWalk t (t.length + 1) i
+
+/-- system-flow processor keys: `<id without dots>_QuotaProcessorInc` per filter; the same key twice for one
+    filter is refused ("processor with the key … already exists").  Header-based limits have no system flow. -/
+def procKeys (q : QEntry) (ils : List QEntry) : List (List Char × String) :=
+  let rec go (known : List (String × String × String)) : List QEntry → List (List Char × String)
+    | [] => []
+    | il :: rest =>
+      let p := ((known.find? (·.1 == il.parent.getD "")).map (·.2)).getD ("", "")
+      let u := match il.url with
+        | some u => if u != "" then u else p.1
+        | none => p.1
+      let k := childKind p.2 il.strat
+      (if k == "hdr" then [] else [(il.id.toList.filter (· != '.'), u)]) ++ go (known ++ [(il.id, u, k)]) rest
+  (if q.strat.kind == "hdr" then [] else [(q.id.toList.filter (· != '.'), q.url.getD "")]) ++
+    go [(q.id, q.url.getD "", q.strat.kind)] ils
+
+def nodupPairs : List (List Char × String) → Bool
+  | [] => true
+  | k :: ks => !ks.contains k && nodupPairs ks
+
+/-- `loadQuotaResources`: strategy creation, quota tree and system-flow processors for every quota and its
+    attached internal limits -/
 def resourcesOk (fs : List QFile) : Bool :=
-  fs.all fun f => f.quotas.all fun q =>
-    q.strat.kind != "none" && (initChildren [(q.id, q.strat.kind)] (attach [q.id] f.internals)).isSome
+  (fs.all fun f => f.quotas.all fun q =>
+    q.strat.kind != "none" && (initChildren [(q.id, q.strat.kind)] (attach [q.id] f.internals)).isSome &&
+    (treeOf q (attach [q.id] f.internals)).isSome) &&
+  nodupPairs (fs.flatMap fun f => f.quotas.flatMap fun q => procKeys q (attach [q.id] f.internals))
+
+/-- the quota trees the loader built, in load order -/
+def quotaTrees (fs : List QFile) : List (List QNode) :=
+  fs.flatMap fun f => f.quotas.filterMap fun q => treeOf q (attach [q.id] f.internals)
+
+/-- `Stream.getQuotaReferences`: for every processor parameter `quota_id` of every flow the parent walk on the
+    (last) tree that contains the id; `true` = every walk ended -/
+def walksOk (c : List QFile) (flows : List (List (String × String))) : Bool :=
+  flows.all fun params => params.all fun kv =>
+    kv.1 != "quota_id" ||
+      (match (quotaTrees c).reverse.find? (fun t => (qresolve t kv.2).isSome) with
+       | none => true
+       | some t => refWalkOk t kv.2)
 
 def allQuotaUrls (fs : List QFile) : List String :=
   fs.flatMap fun f => f.quotas.flatMap fun q => quotaUrls q (attach [q.id] f.internals)
@@ -498,6 +590,7 @@ inductive LoadRes where
   | accept (flows : List Flow)
   | reject (cls : String)
   | crash                      -- fuel exhausted (Go: stack overflow); never happens, see `load_terminates`
+  | hang                       -- the parent-quota walk does not end; never happens, see `load_terminates`
 deriving DecidableEq, Repr, Inhabited
 
 def firstSome {α : Type} (f : α → Option String) : List α → Option String
@@ -513,6 +606,7 @@ def load (c : Cfg) : LoadRes :=
   | .ok qurls =>
     if !c.flows.all flowYamlOk then .reject "yaml" else
     if !nodupKeys (c.flows.map (·.name)) then .reject "yaml" else
+    if !walksOk c.qfiles (c.flows.flatMap fun f => f.procs.map (·.params)) then .hang else
     if !(qurls ++ c.flows.map fun f => f.url.getD "").all urlOk then .reject "url" else
     match firstSome (fun f => firstSome (procCreate c) f.procs) c.flows with
     | some e => .reject e
